@@ -77,17 +77,19 @@ TABLE = {
         "`while evaluate_conditionals(..)? {}`: a pass returns true only after replacing at least one (if-..) list by its "
         "body, which removes that list node; the number of conditional nodes is finite and strictly decreases",
     (KP + "deftemplate::visit_mut_all_lists", 0):
-        "the inner `loop` repeats only when visit() returned true, and both closures handed in (expand, expand_templates) "
-        "return true only when they replaced the list by an atom, which the next iteration leaves on",
+        "the inner `loop` repeats only when visit() returned true, and the one closure that is handed in (in deftemplate::expand; "
+        "callers of the `&mut dyn FnMut` are not checked by the rule) returns true only when it replaced the list by an atom, "
+        "which the next iteration leaves on - it returns false when concat fails",
     (KP + "zippychord::inner::parse_zippy_inner::{closure}", 0):
         "input_left_to_parse is non-empty at the top of the iteration and is replaced by a strict suffix: a leading "
         "space is stripped, then split_once(' ') keeps only what follows the next space (or the empty string)",
 }
 # iterator-driven loops over iterators that kanata defines itself / generic ones: iterator type pattern -> reason
 ITER_TABLE = {
-    "kanata_keyberon::action::switch::SwitchActions<": "its next() advances case_index on every path that returns Some (proved as a variant of the loop "
-                                                       "inside next()), so it yields at most cases.len() items",
-    "kanata_keyberon::layout::QueuedIter<": "walks the bounded event queue by index (its next() is checked like any other function)",
+    "kanata_keyberon::action::switch::SwitchActions<": "its next() advances case_index on every path that returns Some, so it yields at most cases.len() items "
+                                                       "(reviewed by reading switch.rs:192-213; the loop inside next() is proved to progress, but a "
+                                                       "`return Some` leaves that loop, so the claim about the returning paths is not machine-checked)",
+    "kanata_keyberon::layout::QueuedIter<": "a Filter<Take<arraydeque::Iter>>: finite by composition of finite standard iterators (its next() has no loop)",
     "kanata_parser::cfg::sexpr::PositionCountingBytesIterator<": "wraps core::str::Bytes and only counts positions",
     "impl Iterator<Item = Spanned<TokenRes>>": "the lexer: every next() consumes at least one byte of the finite input (R-SPAN anchors the lexer)",
     "impl Iterator<Item = &'a SExpr>": "callers pass slice iterators over parsed expressions",
